@@ -999,6 +999,17 @@ static void runClientCase(Rng &rng, Gen &g, long long n)
         return obs;
     };
     auto flushQueries = [&]() { for (auto &q : pendingQueries) corr(q.first, q.second); pendingQueries.clear(); };
+    // an application slot on QXmppClient::connected() that changes the discovery set (runs inside _q_streamConnected, before the
+    // initial presence is sent): the initial presence must already advertise the changed set
+    bool hookArmed = false;
+    QObject::connect(&c, &QXmppClient::connected, &c, [&]() {
+        if (!hookArmed) return;
+        hookArmed = false;
+        history += "; [slot on connected():";
+        reconfigure(int(rng.below(2)), 300);
+        history += "]";
+        stat("reconfigured_in_connected_slot");
+    });
 
     int steps = n < 2 ? 4 : 2 + int(rng.below(4));
     for (int k = 0; k < steps; k++) {
@@ -1015,6 +1026,7 @@ static void runClientCase(Rng &rng, Gen &g, long long n)
         int em = n < 2 ? (k == 0 ? 0 : k == 1 ? 1 : 2) : int(rng.below(5));
         if (em == 0) {
             c.sent.clear();
+            hookArmed = n < 2 ? n == 0 : rng.below(3) == 0;
             if (!c.restartSession(g_server->serverPort())) { fprintf(stderr, "loopback reconnect failed\n"); exit(3); }
             acceptPending();
             history += "; connection lost, automatic reconnection, session start";
@@ -1057,6 +1069,7 @@ static void runClientCase(Rng &rng, Gen &g, long long n)
             // the application may still change its extensions / identity before the session is established
             if (n < 2 ? (n == 1 && k == 1) : rng.below(3) == 0) reconfigure(n < 2 ? 1 : int(rng.below(6)), k + 100);
             c.sent.clear();
+            hookArmed = n < 2 ? (n == 1 && k == 0) : rng.below(3) == 0;
             c.startSession();
             history += "; session start";
             corr("emit session", judge(lastPresence(), "session-start", !dirty)); flushQueries();
